@@ -435,6 +435,12 @@ func factsClientCfg() {
 			emit(g, "parseIsSsvCond", "String", leanStr(show(c)), "ParseConfig: when the argument is treated as an option string")
 		}
 	}
+	// ---- ParseConfig: what json.Unmarshal decodes into ----
+	// `raw` is a *RawConfig. Unmarshal(content, &raw) decodes into the POINTER: the JSON value `null` sets it to nil and
+	// reports no error, so the caller gets (nil, nil). Unmarshal(content, raw) decodes into the struct: `null` is a no-op
+	// and the (empty) configuration is then refused by ProcessRawConfig.
+	fParseTarget(g)
+	fConnectFacts(g)
 	// ---- cmd/ck-client: what the dialer gets ----
 	found := ""
 	for _, f := range pkgs["cmd/ck-client"].files {
@@ -456,4 +462,127 @@ func factsClientCfg() {
 		})
 	}
 	emit(g, "dialerKeepAliveArg", "String", leanStr(found), "cmd/ck-client: net.Dialer{KeepAlive: ...}")
+}
+
+func fParseTarget(g string) {
+	pf := fnOf(cl, "ParseConfig")
+	if pf == nil {
+		unrec(g, "parseNullOutcome", "ParseConfig not found")
+		return
+	}
+	// the configuration variable: a named result or local of type *RawConfig, allocated with new(RawConfig) / &RawConfig{}
+	name := ""
+	if pf.Type.Results != nil {
+		for _, f := range pf.Type.Results.List {
+			if show(f.Type) == "*RawConfig" && len(f.Names) == 1 {
+				name = f.Names[0].Name
+			}
+		}
+	}
+	um := allCalls(pf.Body, `^json\.Unmarshal$`)
+	if name == "" || len(um) != 1 || len(um[0].Args) != 2 {
+		unrec(g, "parseNullOutcome", "ParseConfig: expected a result `x *RawConfig` and one json.Unmarshal(content, target)")
+		return
+	}
+	alloc := assignRHS(pf, "^"+regexp.QuoteMeta(name)+"$")
+	allocated := alloc != nil && (show(alloc) == "new(RawConfig)" || show(alloc) == "&RawConfig{}")
+	// a later `if x == nil { return ..., <error> }` also repairs it
+	nilCheck := false
+	ast.Inspect(pf.Body, func(n ast.Node) bool {
+		if is, ok := n.(*ast.IfStmt); ok && is.Pos() > um[0].Pos() && show(is.Cond) == name+" == nil" && len(is.Body.List) > 0 {
+			if rs, ok := is.Body.List[len(is.Body.List)-1].(*ast.ReturnStmt); ok {
+				t := show(rs)
+				nilCheck = nilCheck || (t != "return" && !strings.HasSuffix(t, ", nil")) || strings.Contains(show(is.Body), "err = ")
+			}
+		}
+		return true
+	})
+	target := show(um[0].Args[1])
+	strFact := func(v, src string) { emit(g, "parseNullOutcome", "String", leanStr(v), src) }
+	switch {
+	case !allocated:
+		unrec(g, "parseNullOutcome", "ParseConfig: "+name+" is not allocated with new(RawConfig) before json.Unmarshal")
+	case target == name:
+		strFact("empty-config", "ParseConfig: json.Unmarshal(content, "+target+") decodes into the allocated struct: a `null` document leaves an empty configuration")
+	case target == "&"+name && nilCheck:
+		strFact("error", "ParseConfig: json.Unmarshal(content, "+target+") decodes into the pointer variable (a `null` document sets it to nil) and a nil test with an error return follows")
+	case target == "&"+name:
+		strFact("nil-config", "ParseConfig: json.Unmarshal(content, "+target+") decodes into the pointer variable: a `null` document sets it to nil without an error and nothing checks it: ParseConfig returns (nil, nil)")
+	default:
+		unrec(g, "parseNullOutcome", "ParseConfig: unexpected json.Unmarshal target "+target)
+	}
+	// cmd/ck-client uses the result without a nil test (field access right after the error check)
+	deref := false
+	for _, f := range pkgs["cmd/ck-client"].files {
+		ast.Inspect(f, func(n ast.Node) bool {
+			if a, ok := n.(*ast.AssignStmt); ok && len(a.Rhs) == 1 && len(a.Lhs) == 2 && strings.Contains(show(a.Rhs[0]), "client.ParseConfig(") {
+				v := show(a.Lhs[0])
+				src := show(f)
+				deref = strings.Contains(src, v+".") && !strings.Contains(src, v+" == nil")
+			}
+			return true
+		})
+	}
+	boolFact(g, "mainUsesConfigWithoutNilTest", deref, "cmd/ck-client: the *RawConfig returned by client.ParseConfig is dereferenced without a nil test")
+}
+
+// fConnectFacts: what the first connection does with two processed values.
+//   - makeAuthenticationPayload answers an error of ecdh.GenerateSharedSecret(.., authInfo.ServerPubKey) with log.Panicf
+//   - which transport replaces the server name "random" by randomServerName()
+func fConnectFacts(g string) {
+	if fn := fnOf(cl, "makeAuthenticationPayload"); fn == nil {
+		unrec(g, "authPayloadPanicsOnDHError", "makeAuthenticationPayload not found")
+	} else {
+		found, panics := false, false
+		var list []ast.Stmt = fn.Body.List
+		for i, st := range list {
+			a, ok := st.(*ast.AssignStmt)
+			if !ok || len(a.Rhs) != 1 || len(a.Lhs) != 2 || show(a.Lhs[1]) != "err" {
+				continue
+			}
+			c, ok := a.Rhs[0].(*ast.CallExpr)
+			if !ok || show(c.Fun) != "ecdh.GenerateSharedSecret" || len(c.Args) != 2 || show(c.Args[1]) != "authInfo.ServerPubKey" {
+				continue
+			}
+			found = true
+			if i+1 < len(list) {
+				if is, ok := list[i+1].(*ast.IfStmt); ok && show(is.Cond) == "err != nil" {
+					panics = len(allCalls(is.Body, `^(log\.Panicf?|log\.Fatalf?|panic)$`)) > 0
+					if !panics {
+						// must leave the function with the error instead
+						if _, ok := is.Body.List[len(is.Body.List)-1].(*ast.ReturnStmt); !ok {
+							unrec(g, "authPayloadPanicsOnDHError", "makeAuthenticationPayload: the DH error is neither fatal nor returned")
+							return
+						}
+					}
+				}
+			}
+		}
+		if !found {
+			unrec(g, "authPayloadPanicsOnDHError", "makeAuthenticationPayload: ecdh.GenerateSharedSecret(_, authInfo.ServerPubKey) not found")
+		} else {
+			boolFact(g, "authPayloadPanicsOnDHError", panics, "makeAuthenticationPayload: an error of ecdh.GenerateSharedSecret(ephPv, authInfo.ServerPubKey) is answered with log.Panicf")
+		}
+	}
+	for _, t := range []struct{ fact, fn string }{{"directRandomisesServerName", "DirectTLS.Handshake"}, {"cdnRandomisesServerName", "WSOverTLS.Handshake"}} {
+		fn := fnOf(cl, t.fn)
+		if fn == nil {
+			unrec(g, t.fact, t.fn+" not found")
+			continue
+		}
+		src := show(fn.Body)
+		if !strings.Contains(src, "authInfo.MockDomain") {
+			unrec(g, t.fact, t.fn+": authInfo.MockDomain is not used")
+			continue
+		}
+		rnd := false
+		ast.Inspect(fn.Body, func(n ast.Node) bool {
+			if is, ok := n.(*ast.IfStmt); ok && regexp.MustCompile(`^strings\.EqualFold\([A-Za-z.]+, "random"\)$`).MatchString(show(is.Cond)) &&
+				len(allCalls(is.Body, `^randomServerName$`)) == 1 {
+				rnd = true
+			}
+			return true
+		})
+		boolFact(g, t.fact, rnd, t.fn+": the server name `random` (any case) is replaced by randomServerName() for this connection")
+	}
 }
